@@ -10,10 +10,11 @@ import sys
 
 from . import cyst_compat  # noqa: F401
 import netaddr
-from AIDojoCoordinator.game_components import (Action, ActionType, AgentInfo, IP, Network, Service, Data, GameState)
+from AIDojoCoordinator.game_components import (Action, ActionType, AgentInfo, IP, Network, Service, Data, GameState, Observation)
+from AIDojoCoordinator.utils.utils import observation_as_dict, observation_to_str
 from .common import Driver, Timer, Verdict, lean_gate, write_evidence, seed, TRUSTED_BASE
 
-STRS = ["", "a", "User1", "ünï©ødé", 'q"uote', "sp ace", "ActionType.ScanNetwork", "new\nline", "{}", "True", "0", "\\", "日本"]
+STRS = ["", "a", "User1", "ünï©ødé", 'q"uote', "sp ace", "ActionType.ScanNetwork", "new\nline", "{}", "True", "0", "\\", "日本", "d'Artagnan", "'", "it's \"both\"", "null"]
 KEYS = ["source_host", "target_host", "blocked_host", "target_network", "target_service", "data", "agent_info", "request_trajectory"]
 
 
@@ -216,6 +217,12 @@ def check_eq_hash(drv, rng, V, stats, n):
             V.fail(f"eq-model:{x == y}|{m['eq']}", f"{x} == {y} is {x == y} but equality of type and parameter dictionaries is {m['eq']}", {"kind": "eq", "a": x.as_dict, "b": y.as_dict})
 
 
+def canon_d(d):
+    return {"known_networks": sorted(map(norm, d["known_networks"])), "known_hosts": sorted(map(norm, d["known_hosts"])),
+            "controlled_hosts": sorted(map(norm, d["controlled_hosts"])),
+            **{k: {h: sorted(map(norm, vs)) for h, vs in d[k].items()} for k in ("known_services", "known_data", "known_blocks")}}
+
+
 def rand_view(rng):
     ips = [IP(rand_ip(rng)) for _ in range(rng.randint(0, 6))]
     def sub(k=3):
@@ -253,13 +260,42 @@ def check_views(drv, rng, V, stats, n):
         w = GameState.from_dict(json.loads(json.dumps(d)))
         if not (w == v):
             V.fail("view-eq", "views with the same elements compare unequal", {"kind": "view", "json": d})
+        # the response path: Observation -> observation_as_dict / observation_to_str -> text -> view
+        ob = Observation(v, rng.choice([0, -1, 100]), rng.random() < 0.3, rng.choice([{}, {"end_reason": "x"}]))
+        try:
+            od = json.loads(json.dumps(observation_as_dict(ob)))
+            v3 = GameState.from_dict(od["state"])
+            os_ = json.loads(observation_to_str(ob))
+            v4 = GameState.from_json(os_["state"])
+            if v3 != v or v4 != v or canon_d(v3.as_dict) != canon_d(d) or od["reward"] != ob.reward or od["end"] != ob.end or od["info"] != ob.info:
+                V.fail("observation-roundtrip", "the view / reward / end flag inside an encoded observation is not the one that was encoded", {"kind": "view", "json": d})
+        except Exception as e:
+            V.fail("observation-encode-raises", f"encoding / decoding an observation raised {e!r}", {"kind": "view", "json": d})
+        # views differing in exactly one element of one part are different
+        part = rng.choice(["controlled_hosts", "known_hosts", "known_networks", "known_services", "known_data", "known_blocks"])
+        u = copy.deepcopy(v)
+        x = IP(rand_ip(rng))
+        if part in ("controlled_hosts", "known_hosts"):
+            getattr(u, part).symmetric_difference_update({x})
+        elif part == "known_networks":
+            u.known_networks.symmetric_difference_update({Network(rand_ip(rng), 24)})
+        else:
+            tbl = getattr(u, part)
+            elem = {"known_services": Service("s", "t", "v", True), "known_data": Data("o", "i"), "known_blocks": IP("9.9.9.9")}[part]
+            if tbl and rng.random() < 0.6:
+                k = rng.choice(sorted(tbl, key=str))
+                tbl[k] = set(tbl[k]) ^ {elem}
+            else:
+                tbl[x] = {elem} if rng.random() < 0.7 else set()
+        same = canon_d(u.as_dict) == canon_d(d)
+        stats["view_pairs"] = stats.get("view_pairs", 0) + 1
+        if (u == v) != same or (v == u) != same:
+            V.fail(f"view-neq:{part}", f"views that differ in one element of {part} compare equal (== is {u == v}, same elements: {same})",
+                   {"kind": "view-pair", "a": d, "b": u.as_dict})
         reqs.append({"op": "viewrt", "j": json.loads(json.dumps(d))})
         meta.append(d)
     reps = drv.ask_many(reqs)
-    def canon(d):
-        return {"known_networks": sorted(map(norm, d["known_networks"])), "known_hosts": sorted(map(norm, d["known_hosts"])),
-                "controlled_hosts": sorted(map(norm, d["controlled_hosts"])),
-                **{k: {h: sorted(map(norm, vs)) for h, vs in d[k].items()} for k in ("known_services", "known_data", "known_blocks")}}
+    canon = canon_d
     for d, m in zip(meta, reps):
         if not m["ok"] or canon(m["j"]) != canon(d):
             V.fail("view-model", "the model's decoder does not reproduce the real encoding of a view", {"kind": "view", "json": d, "model": m})
@@ -274,7 +310,7 @@ def main(prop, tier):
         for f in info["failures"]:
             V.proof_fail(f)
     stats = {"evaluations": 0, "nontrivial": set(), "samples": [], "bad_kinds": {}, "bad_refused": 0, "bad_accepted": 0}
-    coord_stats = {}
+    coord_stats = {"focus": prop}
     other = {}
     if info.get("build_ok"):
         rng = random.Random(7919 * seed() + int(prop[1:]))
